@@ -1,13 +1,13 @@
 ------------------------------ MODULE CowTrace ------------------------------
 EXTENDS CowGuarded, TraceBase
 VARIABLE l
-TInit == l = 1 /\ InitWith(<<>>) /\ TLCSet(1, 0)
+TInit == l = 1 /\ InitWith(<<>>, 0) /\ TLCSet(1, 0)
 Skip == LifeKinds \cup {"blocked", "wget", "wrel", "wdone", "sget", "srel", "final", "starved", "soloyield"}
 TNext ==
     /\ l <= Len(Tr)
     /\ l' = l + 1
     /\ LET e == Tr[l] IN
-       \/ e.k = "reset" /\ ResetTo(e.prog)
+       \/ e.k = "reset" /\ ResetTo(e.prog, IF "copythrows" \in DOMAIN e.p THEN e.p.copythrows ELSE 0)
        \/ (e.k \in Skip \/ (e.t = 0 /\ e.k # "reset")) /\ UNCHANGED vars
        \/ e.k \in EndKinds /\ e.t # 0 /\ UNCHANGED vars
        \/ e.t # 0 /\ e.k \notin (Skip \cup EndKinds \cup {"reset"}) /\ Next /\ Matches(ev', e)
